@@ -25,7 +25,7 @@ var areas = map[string]map[string]cmd{
 	"digraph": {"replay": digrapharea.Replay},
 	"dump":    {"child": dumparea.Child, "explore": dumparea.Explore, "roundtrip": dumparea.Roundtrip, "attack": dumparea.Attack},
 	"trav":    {"run": travarea.Run, "pipe": travarea.Pipe},
-	"front":   {"gate": frontarea.Gate, "build": frontarea.Build, "fuzz": frontarea.Fuzz},
+	"front":   {"gate": frontarea.Gate, "build": frontarea.Build, "fuzz": frontarea.Fuzz, "faithful": frontarea.Faithful},
 	"reach":   {"replay": reacharea.Replay},
 	"idset":   {"replay": idsetarea.Replay, "conc": idsetarea.Conc, "abba": idsetarea.Abba, "toggle": idsetarea.Toggle, "family": idsetarea.Family},
 }
